@@ -159,6 +159,12 @@ def source_scan():
         if set(fl) != set(h_fl):
             problems.append("SFlags variants differ: %s vs %s" % (fl, h_fl))
     scan = dict(operations=ops, branches=br, flags=fl)
+    c05 = os.path.join(HARNESS, "src/c05.rs")
+    for ename, cname in (("BinaryOperator", "BIN_NAMES"), ("UnaryOperator", "UN_NAMES")):
+        repo_v = enum_variants(os.path.join(REPO, "src/expr.rs"), ename)
+        mine = const_str_list(c05, cname)
+        if repo_v is None or mine is None or set(repo_v) != set(mine):
+            problems.append("%s variants differ from harness table %s: %s vs %s" % (ename, cname, repo_v, mine))
     for fname, ename in (
         ("src/expr.rs", "BinaryOperator"),
         ("src/expr.rs", "UnaryOperator"),
@@ -548,6 +554,7 @@ def check(prop, tier, only=None):
         for p in problems:
             log("SOURCE-SCAN-ERROR: " + p)
         return 2
+    write_excl(set())
     ok, secs, logf = build_native()
     log("  built native replay binaries in %.0fs: %s" % (secs, "ok" if ok else "FAILED"))
     if not ok:
